@@ -56,7 +56,7 @@ pub fn decode_game(s: &mut Stream, gs: &mut Stream, dyadic: bool) -> (Built, boo
             constant = 0.0;
         }
         let opts = EfgOpts {
-            constant,
+            unit: 0.0, constant,
             interior: s.bool() && exact,
             share_outcomes: s.bool(),
             unnamed_fraction: [0, 64, 256][s.below(3)],
